@@ -30,6 +30,13 @@ build_racepass() {
   # supplementary free-running pass for C12 (uninstrumented, Go race detector); optional
   (cd mc && go build -race -o ../.work/racepass ./cmd/racepass) >.work/build-race.log 2>&1 || rm -f .work/racepass
 }
+build_cli() {
+  # the real command-line tool from the working tree, and a variant with an argument server added by overlay
+  if ! (cd /repo && go build -o "$VERIF_DIR/.work/bcl-cli" ./cmd/bcl) >.work/build-cli.log 2>&1; then
+    echo "INFRA: cmd/bcl does not build" >&2; cat .work/build-cli.log >&2; exit 2
+  fi
+  ov=$(.work/bclmc cli-overlay) && (cd /repo && go build -overlay "$ov" -o "$VERIF_DIR/.work/bcl-argv" ./cmd/bcl) >.work/build-argv.log 2>&1 || rm -f .work/bcl-argv
+}
 needs_e1() {
   case "$1" in C11|C12|C15|C16) return 0 ;; esac
   return 1
@@ -38,10 +45,12 @@ build_plain
 case "$1" in
   replay)
     id=$(basename "$2" | cut -d- -f1)
+    if [ "$id" = C18 ]; then build_cli; fi
     if needs_e1 "$id"; then build_e1; exec .work/bclmc-e1 replay "$2"; fi
     exec .work/bclmc replay "$2" ;;
   *)
     if [ "$1" = C12 ]; then build_racepass; fi
+    if [ "$1" = C18 ]; then build_cli; fi
     if needs_e1 "$1"; then build_e1; exec .work/bclmc-e1 check "$1" "${2:-quick}"; fi
     exec .work/bclmc check "$1" "${2:-quick}" ;;
 esac
